@@ -8,37 +8,45 @@ From SAV.engine Require Import PoolSeq PoolSeqFrame PoolSeqLeakProofs PoolSeqAcc
 Open Scope Z_scope.
 
 (* ---------------------------------------------------------------- no_leak
-   every pool class, every configuration, every history of harness operations, every fault script:
-   if no BaseException escaped a DBAPI close() and none hit the reset that the garbage collector runs
-   for a dropped checkout ([taint] = false), then once every holder has dropped its reference no
-   record is checked out. *)
+   every pool class, every configuration, every history of harness operations, every fault script
+   (Exception and BaseException faults at connect, ping, checkout listener, rollback/commit; Exception
+   faults at close): if no BaseException escaped a DBAPI close(), then once every holder has dropped its
+   reference no record is checked out. *)
 Theorem c26_no_leak : forall cf fl ops,
   let s := run cf ops (init cf fl) in
-  taint s = false -> all_released s -> inuse_count s = O.
+  taint_close s = false -> all_released s -> inuse_count s = O.
 Proof. exact no_leak. Qed.
 Print Assumptions c26_no_leak.
 
-(* the excluded region is real: a BaseException out of the rollback that the weakref callback runs is
-   swallowed by the interpreter and the record is never checked in (QueuePool(1, 1): one checkout,
-   dropped and collected, rollback raises BaseException) *)
-Theorem c26_no_leak_refuted_baseexception_in_gc_reset : exists cf fl ops,
+(* the excluded region is real: the garbage collector finalises a dropped checkout, the rollback
+   raises, the invalidation's close() raises BaseException: check-in is skipped *)
+Theorem c26_no_leak_refuted_baseexception_from_close : exists cf fl ops,
   let s := run cf ops (init cf fl) in
-  taint_close s = false /\ all_released s /\ inuse_count s = 1%nat /\ checkedout cf s = 1.
+  all_released s /\ inuse_count s = 1%nat /\ checkedout cf s = 1.
 Proof.
-  exists (mkcfg KQueue 1 1 false (-1) false false RRollback true), [0; 2], [(OConnect, 1); (ODel 0, 1)].
+  exists (mkcfg KQueue 1 1 false (-1) false false RRollback true), [0; 1; 2], [(OConnect, 1); (ODel 0, 1)].
   vm_compute. repeat split; auto. intros h [H|[]]; auto.
 Qed.
-Print Assumptions c26_no_leak_refuted_baseexception_in_gc_reset.
+Print Assumptions c26_no_leak_refuted_baseexception_from_close.
+
+(* since commit 51edfd0 a BaseException out of the rollback run by the weakref callback no longer
+   loses the record (formerly the refutation witness of no_leak) *)
+Example c26_ex_gc_reset_baseexception_recovers :
+  let cf := mkcfg KQueue 1 1 false (-1) false false RRollback true in
+  let s := run cf [(OConnect, 1); (ODel 0, 1)] (init cf [0; 2]) in
+  taint_close s = false /\ all_released s /\ inuse_count s = O /\ checkedout cf s = 0.
+Proof. vm_compute. repeat split; auto. intros h [H|[]]; auto. Qed.
 
 (* ---------------------------------------------------------------- overflow_consistent (QueuePool)
    on every path (connect failures, failing pre-ping / checkout listener, errors during reset and
    close, invalidation, detach, garbage-collected checkouts) the increments and decrements of the
    overflow counter balance: checkedout() is exactly the number of records in use, idle records never
    exceed pool_size, overflow stays within [-pool_size, max_overflow] - unless a BaseException has
-   escaped close(). *)
+   escaped close(), or escaped the reset of an explicitly returned fairy ([taint] = taint_close ||
+   taint_reset). *)
 Theorem c26_overflow_consistent : forall cf, kind cf = KQueue -> 0 <= psize cf -> -1 <= maxov cf ->
   forall fl ops, let s := run cf ops (init cf fl) in
-  taint_close s = false ->
+  taint s = false ->
   checkedout cf s = Z.of_nat (inuse_count s) /\
   (0 < psize cf -> checkedin s <= psize cf) /\
   - psize cf <= overflow s /\ (0 <= maxov cf -> overflow s <= maxov cf).
@@ -64,6 +72,20 @@ Proof.
   vm_compute. repeat split; auto; try discriminate. intros h [].
 Qed.
 Print Assumptions c26_overflow_refuted_baseexception_from_close.
+
+(* second excluded region (a regression of commit 51edfd0): a BaseException out of the rollback of an
+   explicit close() now checks the record in but leaves the fairy attached to it; a later detach()
+   (or invalidate()) through that stale fairy returns the record a second time *)
+Theorem c26_overflow_refuted_baseexception_in_explicit_reset : exists cf fl ops,
+  kind cf = KQueue /\ 0 <= psize cf /\ -1 <= maxov cf /\
+  let s := run cf ops (init cf fl) in
+  taint_close s = false /\ inuse_count s = O /\ checkedout cf s = -1.
+Proof.
+  exists (mkcfg KQueue 1 1 false (-1) false false RRollback true), [0; 2],
+    [(OConnect, 1); (OClose 0, 1); (ODetach 0, 1)].
+  vm_compute. repeat split; auto; try easy.
+Qed.
+Print Assumptions c26_overflow_refuted_baseexception_in_explicit_reset.
 
 (* ---------------------------------------------------------------- refutations of the remaining clauses
    (the positive theorems ledger / no_dead_reuse are not part of this file yet: see LEVEL_NOTE) *)
